@@ -724,9 +724,11 @@ impl<'de, R: Read<'de>> Parser<R> {
             }
             Token::Quotation(name) => {
                 // TODO: more specific error
-                let datum = self
-                    .next_value()?
-                    .ok_or_else(|| self.peek_error(ErrorCode::EofWhileParsingList))?;
+                self.enter_nested()?;
+                let datum = self.next_value();
+                self.remaining_depth += 1;
+                let datum =
+                    datum?.ok_or_else(|| self.peek_error(ErrorCode::EofWhileParsingList))?;
                 Value::list(vec![Value::symbol(name), datum])
             }
         };
@@ -809,9 +811,11 @@ impl<'de, R: Read<'de>> Parser<R> {
             Token::Quotation(name) => {
                 // TODO: more specific error
                 let token_end = self.read.position();
-                let quoted = self
-                    .next_datum()?
-                    .ok_or_else(|| self.peek_error(ErrorCode::EofWhileParsingList))?;
+                self.enter_nested()?;
+                let quoted = self.next_datum();
+                self.remaining_depth += 1;
+                let quoted =
+                    quoted?.ok_or_else(|| self.peek_error(ErrorCode::EofWhileParsingList))?;
                 Datum::quotation(name, quoted, Span::new(start, token_end))
             }
         };
